@@ -1,13 +1,245 @@
-"""C07 -- placeholder until the check is built"""
+"""C07 -- results do not depend on the time origin"""
+
+import datetime
+
+from .. import core, curves_common, data, gen_planted, gen_series
+
 PROPERTY = 'C07'
 LEVEL = 'exploration'
-SHARDS = {'quick': 1, 'thorough': 1}
-RULE = 'not built yet'
+SHARDS = {'quick': 4, 'thorough': 16}
+RULE = (
+    'Metamorphic: the same wall-clock record (G-series with steps 600/1200/1800/3600 s and increments exactly equal '
+    'to threshold x step built around level 0 so that the tie survives rounding; G-planted for the master curves) is '
+    'loaded 4 times: at a base origin, shifted by a whole number of steps (1 step ... decades: origins 1971-2037, i.e. '
+    'different binades of epoch/3600), and declared in two other fixed-offset zones (Etc/GMT+-N, Asia/Kolkata, '
+    'Asia/Kathmandu, Africa/Lagos).  Each load goes through classify, set-zeta-grid, rise, recession; the full '
+    'logical dump of every table, with all epoch columns re-based on the first grid instant, must be identical '
+    '(classification tables exactly, curve tables to 1e-9 relative), as must the outcome (completed / refused) of '
+    'every step.  Non-trivial: record containing >= 1 increment within 4 ulp of the threshold product, or >= 1 '
+    'assembled curve; distinct by (record digest, shift).'
+)
+ASSUMPTIONS = [
+    'zones are fixed-offset over the span of each record (origins are chosen away from the historical transitions of the zones used)',
+]
+SIZES = {'quick': dict(ties=90, planted=24), 'thorough': dict(ties=4000, planted=800)}
+REQUIRED = {
+    tier: {
+        'variants-compared': 150,
+        'records-with-near-tie-increments': 30,
+        'near-tie-increments': 100,
+        'records-with-assembled-curve': 10,
+        'zone-variants': 50,
+        'shift-variants-across-years': 30,
+        'step-1200-or-600-records': 20,
+    }
+    for tier in ('quick', 'thorough')
+}
+MIN_NONTRIVIAL = {'quick': 40, 'thorough': 1000}
+
+EPOCH_COLS = {
+    'grid_time': [0], 'grid_time_flags': [0], 'rainfall_intensity': [0, 1], 'evapotranspiration': [0, 1],
+    'water_level': [0], 'storm': [0, 1], 'zeta_interval': [0, 2], 'zeta_interval_storm': [0, 2],
+    'rising_interval': [0], 'recession_interval': [0], 'rising_interval_zeta': [0], 'recession_interval_zeta': [0],
+    'rainfall_intensity_staging': [0], 'water_level_staging': [0], 'evapotranspiration_staging': [0],
+}
+FLOAT_TABLES = {'rising_interval', 'recession_interval', 'rising_interval_zeta', 'recession_interval_zeta'}
+ZONES = ['UTC', 'Etc/GMT+5', 'Etc/GMT-7', 'Etc/GMT-12', 'Asia/Kolkata', 'Asia/Kathmandu', 'Africa/Lagos', 'Etc/GMT+11']
+ORIGINS = ['1971-02-03 00:00:00', '1996-06-01 12:00:00', '2013-07-07 06:00:00', '2021-03-01 00:00:00',
+           '2037-11-30 18:00:00', '2004-02-29 00:00:00']
+
+
+def gen_tie_record(rng):
+    """G-series record whose jump increments are exactly threshold*step,
+    built near level 0 so that z[i+1] - z[i] reproduces the product"""
+    case = gen_series.gen(rng, force=rng.choice(['tie_jump', 'chain', 'storm_two_rises', None]),
+                          dyadic=False if rng.random() < 0.8 else True)
+    step = case['step']
+    J = case['jthr'] * (step / 3600.0)
+    # rebuild the water level from its increments around zero, replacing
+    # "big" and "small" increments by exact multiples / the exact tie
+    zs = [v for _, v in case['z']]
+    secs = [t for t, _ in case['z']]
+    out = [0.0]
+    for a, b in zip(zs[:-1], zs[1:]):
+        d = b - a
+        r = rng.random()
+        if d > J * 1.01:
+            nd = J * rng.choice([1.0, 1.0, 2.0, 1.5])
+        elif d > 0:
+            nd = J if r < 0.5 else d
+        else:
+            nd = d if r < 0.5 else 0.0
+        out.append(out[-1] + nd)
+        if abs(out[-1]) > 40 * J:
+            out[-1] = 0.0 if rng.random() < 0.5 else out[-1]
+    case['z'] = [[t, v] for t, v in zip(secs, out)]
+    case['grid_step'] = rng.choice([0.5, 1.0, 0.3])
+    return case
+
+
+def relative_dump(connection):
+    (t0,) = connection.execute('SELECT min(epoch) FROM grid_time').fetchone()
+    out = {}
+    for table, cols in EPOCH_COLS.items():
+        rows = connection.execute('SELECT * FROM {}'.format(table)).fetchall()
+        rb = []
+        for row in rows:
+            row = list(row)
+            for c in cols:
+                row[c] = row[c] - t0
+            rb.append(tuple(row))
+        out[table] = sorted(rb, key=repr)
+    for table in ('thresholds', 'zeta_grid', 'discrete_zeta', 'curvature'):
+        out[table] = sorted(connection.execute('SELECT * FROM {}'.format(table)).fetchall(), key=repr)
+    out['time_grid'] = connection.execute('SELECT time_step_s FROM time_grid').fetchall()
+    for view in ('average_recession_time', 'average_rising_depth', 'storm_total_rain_depth'):
+        rows = connection.execute('SELECT * FROM {}'.format(view)).fetchall()
+        if view == 'storm_total_rain_depth':
+            rows = [(r[0] - t0, r[1]) for r in rows]
+        out['view:' + view] = sorted(rows, key=repr)
+    return out
+
+
+def process(case):
+    """load + classify + grid + rise + recession; returns (dump, outcomes)"""
+    import spowtd.classify as cl
+    import spowtd.zeta_grid as zg
+
+    connection = data.load_case(case)
+    outcomes = []
+    try:
+        cl.classify_intervals(connection, case['sthr'], case['jthr'])
+        outcomes.append(('classify', 'ok'))
+    except Exception as exc:  # pylint: disable=broad-except
+        connection.rollback()
+        outcomes.append(('classify', core.describe_exception(exc)['type']))
+        return relative_dump(connection), outcomes, connection
+    zg.populate_zeta_grid(connection, case.get('grid_step', 1.0))
+    connection.commit()
+    for kind in ('rise', 'recession'):
+        exc = curves_common.run_curve(connection, kind)
+        if exc is None:
+            outcomes.append((kind, 'ok'))
+        else:
+            key, desc = curves_common.classify_outcome(exc)
+            outcomes.append((kind, key))
+    return relative_dump(connection), outcomes, connection
+
+
+def compare(base, other):
+    """Returns (table, detail) of the first difference or None; and max float diff"""
+    worst = 0.0
+    for table in base:
+        a, b = base[table], other[table]
+        floaty = table in FLOAT_TABLES or table.startswith('view:')
+        if not floaty:
+            if a != b:
+                diff = [(x, y) for x, y in zip(a, b) if x != y][:3]
+                return (table, {'n_base': len(a), 'n_other': len(b), 'first_differences': diff,
+                                'only_base': sorted(set(a) - set(b), key=repr)[:3], 'only_other': sorted(set(b) - set(a), key=repr)[:3]}), worst
+            continue
+        if len(a) != len(b):
+            return (table, {'n_base': len(a), 'n_other': len(b)}), worst
+        # rows are sorted by repr, which may order nearly-equal floats
+        # differently: sort by the integer / key columns instead
+        ka = sorted(a, key=lambda r: tuple(v for v in r if isinstance(v, int)) or tuple(r[:1]))
+        kb = sorted(b, key=lambda r: tuple(v for v in r if isinstance(v, int)) or tuple(r[:1]))
+        scale = max([1.0] + [abs(v) for r in ka for v in r if isinstance(v, float)])
+        for ra, rb in zip(ka, kb):
+            for va, vb in zip(ra, rb):
+                if isinstance(va, float) or isinstance(vb, float):
+                    d = abs(va - vb)
+                    worst = max(worst, d / scale)
+                    if d > 1e-9 * scale:
+                        return (table, {'base_row': ra, 'other_row': rb, 'scale': scale}), worst
+                elif va != vb:
+                    return (table, {'base_row': ra, 'other_row': rb}), worst
+    return None, worst
+
+
+def near_ties(case):
+    J = case['jthr'] * (case['step'] / 3600.0)
+    zs = [v for _, v in case['z']]
+    ts = [t for t, _ in case['z']]
+    return sum(1 for i in range(len(zs) - 1)
+               if ts[i + 1] - ts[i] == case['step'] and abs((zs[i + 1] - zs[i]) - J) <= 4 * 2.0 ** -52 * abs(J))
+
+
+def shift_text(t0_text, seconds):
+    t = data.parse_t0(t0_text) + datetime.timedelta(seconds=seconds)
+    return t.strftime(data.FMT)
+
+
+def check_case(ctx, rng, case):
+    rec = ctx.rec
+    rec.case()
+    step = case['step']
+    base_case = dict(case, t0=rng.choice(ORIGINS), tz='UTC')
+    try:
+        base, base_out, conn = process(base_case)
+        conn.close()
+    except Exception as exc:  # pylint: disable=broad-except
+        desc = core.describe_exception(exc)
+        rec.hit('base-load-refused')
+        return
+    nt = near_ties(case)
+    if nt:
+        rec.hit('records-with-near-tie-increments')
+        rec.hit('near-tie-increments', nt)
+    if step in (600, 1200):
+        rec.hit('step-1200-or-600-records')
+    assembled = any(o == 'ok' for k, o in base_out if k in ('rise', 'recession'))
+    if assembled:
+        rec.hit('records-with-assembled-curve')
+    variants = []
+    # shift by a whole number of steps: small, and across years
+    k_small = rng.choice([1, 2, 3, 7, 12345])
+    variants.append(('shift', dict(base_case, t0=shift_text(base_case['t0'], k_small * step)), k_small))
+    other = rng.choice([o for o in ORIGINS if o != base_case['t0']])
+    delta = int((data.parse_t0(other) - data.parse_t0(base_case['t0'])).total_seconds())
+    k_big = delta // step
+    variants.append(('shift-years', dict(base_case, t0=shift_text(base_case['t0'], k_big * step)), k_big))
+    for zone in rng.sample(ZONES[1:], 2):
+        variants.append(('zone', dict(base_case, tz=zone), zone))
+    for label, variant, what in variants:
+        try:
+            dump, out, conn = process(variant)
+            conn.close()
+        except Exception as exc:  # pylint: disable=broad-except
+            desc = core.describe_exception(exc)
+            rec.violation('variant-load-fails', {'variant': label, 'what': what, 'exception': desc}, dict(case, variant=[label, what], base_t0=base_case['t0']), 'origin')
+            return
+        rec.hit('variants-compared')
+        rec.hit({'shift': 'shift-variants', 'shift-years': 'shift-variants-across-years', 'zone': 'zone-variants'}[label])
+        if out != base_out:
+            rec.violation('step-outcome-depends-on-origin', {'variant': label, 'what': what, 'base': base_out, 'other': out},
+                          dict(case, variant=[label, what], base_t0=base_case['t0']), 'origin')
+            return
+        diff, worst = compare(base, dump)
+        rec.note_max('max relative difference in curve tables', worst)
+        if diff is not None:
+            table, detail = diff
+            rec.violation('table-depends-on-origin:' + table, {'variant': label, 'what': what, 'detail': detail},
+                          dict(case, variant=[label, what], base_t0=base_case['t0']), 'origin')
+            return
+    if nt or assembled:
+        rec.mark_nontrivial(core.digest((case['rain'][:40], case['z'][:40], case['sthr'], case['jthr'], base_case['t0'])))
+        rec.sample({'step_s': step, 'base_t0': base_case['t0'], 'variants': [(l, w) for l, _, w in variants],
+                    'near_tie_increments': nt, 'outcomes': base_out, 'sthr': case['sthr'], 'jthr': case['jthr'], 'z_first': case['z'][:5]})
 
 
 def run(ctx):
-    ctx.rec.inconclusive_because('check not built yet')
+    s = SIZES[ctx.tier]
+    rng = ctx.rng('ties')
+    for _ in range(ctx.share(s['ties'])):
+        check_case(ctx, rng, gen_tie_record(rng))
+    rng = ctx.rng('planted')
+    for i in range(ctx.share(s['planted'])):
+        case = gen_planted.gen(rng, step=[1200, 900, 1800, 3600][i % 4])
+        check_case(ctx, rng, case)
 
 
 def replay(ctx, case, module=None):
-    ctx.rec.inconclusive_because('check not built yet')
+    rng = core.make_rng('replay', case.get('base_t0'))
+    for _ in range(4):
+        check_case(ctx, rng, case)
